@@ -382,4 +382,87 @@ def replay (d : List Int) : List Sig → Option (List Int)
   | [] => some d
   | s :: ss => (applySig d s).bind fun d' => replay d' ss
 
+/-! ### handlers that subscribe / unsubscribe / clear while they are being notified (re-entrancy)
+
+`_mesa_notify` (G13 repaired) walks the subscriber list as it was when the signal was emitted; a reference whose
+handler has died is skipped, and so is one that a handler called earlier in the same round has unsubscribed meanwhile
+(`unobserve`, `clear_all_subscriptions`); a handler subscribed during the round is not called for the signal in flight.
+Afterwards the dead references are dropped from the list *as it is then*: the round never writes the list it started
+from back (that undid every `unobserve` / `clear_all_subscriptions` made by a handler). -/
+
+/-- a call a handler makes on the registry while it is being notified -/
+inductive Act where
+  | observe (n : Sel Nat) (t : Sel SigType) (h : Nat)
+  | unobserve (n : Sel Nat) (t : Sel SigType) (h : Nat)
+  | clear (n : Sel Nat)
+deriving Repr, DecidableEq
+
+/-- the call is accepted (decided by the declarations alone); admitted handler programs consist of such calls -/
+def Act.valid (r : Reg Nat) : Act → Bool
+  | .observe n t h => match r.observe n t h with | .ok _ => true | .error _ => false
+  | .unobserve n t h => match r.unobserve (fun _ => true) n t h with | .ok _ => true | .error _ => false
+  | .clear _ => true
+
+/-- one call; a rejected call changes nothing -/
+def Reg.act (r : Reg Nat) (alive : Nat → Bool) : Act → Reg Nat
+  | .observe n t h => match r.observe n t h with | .ok r' => r' | .error _ => r
+  | .unobserve n t h => match r.unobserve alive n t h with | .ok r' => r' | .error _ => r
+  | .clear n => r.clearAll n
+
+def Reg.acts (r : Reg Nat) (alive : Nat → Bool) (as : List Act) : Reg Nat := as.foldl (fun r a => r.act alive a) r
+
+/-- the loop of `_mesa_notify` over the snapshot: `called` = the handlers called so far, in order -/
+def roundLoop (progs : Nat → List Act) (alive : Nat → Bool) (n : Nat) (t : SigType) :
+    List Nat → Reg Nat → List Nat → Reg Nat × List Nat
+  | [], r, called => (r, called)
+  | h :: rest, r, called =>
+    if alive h && (r.subs n t).contains h then
+      roundLoop progs alive n t rest (r.acts alive (progs h)) (called ++ [h])
+    else roundLoop progs alive n t rest r called
+
+/-- `_mesa_notify` with handlers that run the registry calls `progs h` when they are called -/
+def Reg.deliverR (progs : Nat → List Act) (r : Reg Nat) (alive : Nat → Bool) (n : Nat) (t : SigType) :
+    Reg Nat × List Nat :=
+  let res := roundLoop progs alive n t (r.subs n t) r []
+  (res.1.setSubs n t ((res.1.subs n t).filter alive), res.2)
+
+def notifyR (progs : Nat → List Act) (s : St) (sig : Sig) : St × List (Nat × Sig) :=
+  let res := s.reg.deliverR progs s.alive sig.name sig.type
+  ({ s with reg := res.1 }, res.2.map fun h => (h, sig))
+
+def notifyAllR (progs : Nat → List Act) (s : St) (sigs : List Sig) : St × List (Nat × Sig) :=
+  sigs.foldl (fun (acc : St × List (Nat × Sig)) sig =>
+    let res := notifyR progs acc.1 sig
+    (res.1, acc.2 ++ res.2)) (s, [])
+
+/-- `step` with such handlers (`progs = fun _ => []`: the passive handlers of `step`) -/
+def stepR (progs : Nat → List Act) (s : St) (op : Op) : St × Out :=
+  match op with
+  | .assign n v =>
+      let res := notifyR progs s ⟨n, .change, s.obsv n, .int v, .none⟩
+      ({ res.1 with obsv := fun m => if m = n then .int v else res.1.obsv m }, .ok res.2)
+  | .lassign n vs =>
+      let res := notifyR progs s ⟨n, .change, .list ((s.lists n).getD []), .list vs, .none⟩
+      ({ res.1 with lists := fun m => if m = n then some vs else res.1.lists m }, .ok res.2)
+  | .observe .. | .unobserve .. | .clear _ | .drop _ => step s op
+  | op =>
+      match op.listName with
+      | none => (s, .err .attr)
+      | some n =>
+        match s.lists n with
+        | none => (s, .err .attr)
+        | some d =>
+          match listOp n d op with
+          | .error e => (s, .err e)
+          | .ok (d', sigs) =>
+            let res := notifyAllR progs s sigs
+            ({ res.1 with lists := fun m => if m = n then some d' else res.1.lists m }, .ok res.2)
+
+def runR (progs : Nat → List Act) (s : St) : List Op → St × List Out
+  | [] => (s, [])
+  | op :: ops =>
+    let res := stepR progs s op
+    let rest := runR progs res.1 ops
+    (rest.1, res.2 :: rest.2)
+
 end Mesa.Signals
